@@ -1011,6 +1011,48 @@ pub fn variant_databases() -> (Vec<(String, String)>, Value) {
             }
         }
     }
+    // `has_superclass` mimics Instance:IsA(ClassName): it is about names. The descriptors handed
+    // to it may be copies, or come from another database with the same classes (the bundled one
+    // next to a clone), or describe a class the database does not hold.
+    {
+        let mut wrong = 0u64;
+        let mut first: Option<String> = None;
+        for cn in &class_names {
+            let chain: Vec<String> = specdb::class_chain(cn).map(|c| c.iter().map(|d| d.name.to_string()).collect()).unwrap_or_default();
+            let own = &bundled.classes[cn.as_str()];
+            for other in ["Instance", "BasePart", "GuiObject", cn.as_str()] {
+                let Some(o) = bundled.classes.get(other) else { continue };
+                let want = chain.iter().any(|x| x == other);
+                let copies = o.clone();
+                let answers = [
+                    ("same database, referenced descriptors", bundled.has_superclass(own, o)),
+                    ("a cloned superclass descriptor", bundled.has_superclass(own, &copies)),
+                    ("a cloned class descriptor", bundled.has_superclass(&own.clone(), o)),
+                    ("descriptors of the bundled database asked of its re-spelled copy", v1.has_superclass(own, o)),
+                    ("descriptors of the copy asked of the bundled database", bundled.has_superclass(&v1.classes[cn.as_str()], &v1.classes[other])),
+                ];
+                for (how, got) in answers {
+                    compared += 1;
+                    if got != want {
+                        wrong += 1;
+                        first.get_or_insert_with(|| format!("has_superclass({}, {}) with {} gives {}, walking the chain by name gives {}", cn, other, how, got, want));
+                    }
+                }
+            }
+        }
+        let mut custom = rbx_reflection::ClassDescriptor::new("ZzVerifUnregistered");
+        custom.superclass = Some(std::borrow::Cow::Borrowed("Part"));
+        for (other, want) in [("BasePart", true), ("Part", true), ("Folder", false)] {
+            compared += 1;
+            if bundled.has_superclass(&custom, &bundled.classes[other]) != want {
+                wrong += 1;
+                first.get_or_insert_with(|| format!("has_superclass(an unregistered class deriving from Part, {}) is not {}", other, want));
+            }
+        }
+        if let Some(f) = first {
+            out.push(("c16|variant-db|has_superclass".to_owned(), format!("{} ({} wrong answers)", f, wrong)));
+        }
+    }
     // inherited defaults: through the database's own helper and through the binary default fill
     for (cn, prop, want) in [
         ("ZzVerifShapes", "Plain", 77),
